@@ -344,7 +344,8 @@ class World:
             return F.fn(d, one())
         if d in ROUNDERS and len(node.args) == 1:
             return F.fn(ROUNDERS[d], one())
-        if d in ("numpy.empty", "numpy.zeros", "numpy.empty_like", "numpy.zeros_like"):
+        if d in ("numpy.empty", "numpy.zeros", "numpy.empty_like", "numpy.zeros_like", "numpy.ones", "numpy.ones_like", "numpy.full", "numpy.full_like",
+                 "numpy.ndarray"):
             return F.sym(f"<buffer@{node.lineno}>")
         if d == "numpy.broadcast":
             pos, kw = ev.args(node)
@@ -511,7 +512,8 @@ class Ev(AutoEvaluator):
             ok = len(vals) == 1 and id(vals[0][1]) in top_calls and rat(vals[0][0])
             self.env[name] = F.fn("each", vals[0][0]) if ok else Unknown(f"{name}.append inside the loop")
         for name, vals in flats.items():
-            ok = len(vals) == 1 and id(vals[0][2]) in top_stmts and rat(vals[0][1]) and enumerated and same(vals[0][0], F.sym("<i>"))
+            ok = len(vals) == 1 and id(vals[0][2]) in top_stmts and rat(vals[0][1]) and enumerated and same(vals[0][0], F.sym("<i>")) \
+                and (symname(self.env.get(name)) or "").startswith("<buffer@")
             self.env[name] = F.fn("each", vals[0][1]) if ok else Unknown(f"{name}.flat[...] store inside the loop")
         return True
 
@@ -535,7 +537,8 @@ class Ev(AutoEvaluator):
     def _assign(self, target, v, st, aug=False):
         if isinstance(target, ast.Attribute) and target.attr == "flat" and isinstance(target.value, ast.Name):
             u = unfn(v)
-            self.env[target.value.id] = v if (u and u[0] == "each") else Unknown(f"{target.value.id}.flat = <not an element-wise list>")
+            is_buffer = (symname(self.env.get(target.value.id)) or "").startswith("<buffer@")
+            self.env[target.value.id] = v if (u and u[0] == "each" and is_buffer) else Unknown(f"{target.value.id}.flat = <not an element-wise list into a new array>")
             return
         if isinstance(target, ast.Subscript) and isinstance(target.value, ast.Attribute) and target.value.attr == "flat" \
                 and isinstance(target.value.value, ast.Name) and self.flats is not None:
